@@ -171,6 +171,8 @@ def run_case(case) -> core.Outcome:
                 ("mul", lambda: x * y, sa * sb),
                 ("div", lambda: x / y, sa / sb if sb != 0 else None),
                 ("pow", lambda: x**n, (sa**n if (sa != 0 or n > 0) else None) if n != 0 else Fraction(1)),
+                # chained: multiply by b, divide by the equal quantity b' (prefixes must cancel)
+                ("muldiv", lambda: (x * y) / (b2 if y is b else b), sa if sb != 0 else None),
             ):
                 if want is None:
                     continue
